@@ -78,6 +78,12 @@ func (obj *Array) calcAndSet(list List) {
 				}
 			}
 		}
+		// The sizes (strides) are row major, the same as NewArray() sets.
+		stride := 1
+		for i := len(obj.dims) - 1; 0 <= i; i-- {
+			obj.sizes[i] = stride
+			stride *= obj.dims[i]
+		}
 		obj.elements = make([]Object, size)
 		obj.setDim(orig, 0, 0)
 	}
